@@ -1,12 +1,15 @@
 from props.common import *
+from props.boundedrun import script
 ID = "C05"
 LEVEL = "proof"
 TAGS = ("C05",)
 CONTRACT_MODULES = ALL_CONTRACTS
 FUNCTIONS = [S + "processLinearMoves", "RetractionState.RetractionState._addCommands", H + "_handle_G10", H + "_handle_G11",
-             S + "exitExcludedRegion", S + "isAnyPointExcluded", H + "_handle_G92", H + "_handle_G28", H + "_handle_G20", H + "_handle_G21", H + "_handle_G90", H + "_handle_G91", H + "_handle_M206", S + "enterExcludedRegion"]
+             S + "exitExcludedRegion", S + "isAnyPointExcluded", H + "_handle_G92", H + "_handle_G28", H + "_handle_G20", H + "_handle_G21", H + "_handle_G90", H + "_handle_G91", H + "_handle_M206", S + "enterExcludedRegion"] + [S + "resetState"]
 ASSUMPTIONS = ["A1", "A2", "A3", "A4", "A5", "INDUCTION"]
-EXTRA_ASSUMPTIONS = ["domain ghost of the property: matched retract/recover cycles of one length L (E-only commands alternate -L / +L), moves extrude only "
+BOUNDED = [script("retract_params.py")]
+EXTRA_ASSUMPTIONS = ["GCODE_PARAMS_REGEX.sub is seen as the uninterpreted function 'parameter text of the command'; that the regex computes it is checked bounded (coverage.bounded: bounded/retract-params)",
+                     "domain ghost of the property: matched retract/recover cycles of one length L (E-only commands alternate -L / +L), moves extrude only "
                      "at file depth 0, absolute extrusion; or firmware retraction only (G10/G11, file flag ghost); the two kinds are not mixed",
                      "'deepest retraction the file has requested so far' is the ghost maxF (running maximum of the file depth)"]
 EXPLANATION = ("Software retractions: the coupling invariant depth_inv (no recorded retraction: printer and file depth 0; recorded: both L; "
